@@ -209,6 +209,15 @@ def hostile_prelude(rec=None):
         "            rec(np.zeros(x.shape[0] + 1, 'float32'), d - 1)\n"
         "    return x\n"
         "rec(np.zeros(2, 'float32'), 3)\n", ns))
+    # generator functions decorated in the old double-decorator spelling whose annotations are (process-wide, cached)
+    # PyTree classes: decorating them must leave those classes meaning what they mean
+    ns2 = {"jaxtyped": jaxtyped, "tc": typeguard.typechecked, "PyTree": PyTree, "typing": typing}
+    for leaf, name in (("int", "'T'"), ("int", "'S T'"), ("int", "'T ...'"), ("str", "'T'"), ("typing.Any", "'T'"), ("int", None), ("typing.Any", None)):
+        ann = f"PyTree[{leaf}, {name}]" if name else f"PyTree[{leaf}]"
+        quiet(lambda: exec_src(
+            f"@jaxtyped\n@tc\ndef gen(x: {ann}) -> typing.Iterator[{ann}]:\n    yield x\n"
+            f"def gen2(x: {ann}) -> typing.Generator[{ann}, None, {ann}]:\n    yield x\n    return x\n"
+            "gen2 = jaxtyped(tc(gen2))\n", dict(ns2)))
     if rec is not None:
         rec.count("hostile_prelude_runs")
 
@@ -230,6 +239,10 @@ def toplevel_probes(rec, prop, when):
         ("(3,3) vs Shaped[N, 'a a']", lambda: isinstance(np_array((3, 3)), Shaped[N, "a a"]), True),
         ("int64 array vs Int[N, '...']", lambda: isinstance(np.zeros(2, dtype="int64"), Int[N, "..."]), True),
         ("[i32(2)] vs PyTree[Float[N, 'a']]", lambda: isinstance([np_array((2,), "int32")], PyTree[Float[N, "a"]]), False),
+        ("(1, 's') vs PyTree[int, 'T']", lambda: isinstance((1, "s"), PyTree[int, "T"]), False),
+        ("(1, 2) vs PyTree[int, 'T']", lambda: isinstance((1, 2), PyTree[int, "T"]), True),
+        ("[1.5] vs PyTree[int]", lambda: isinstance([1.5], PyTree[int]), False),
+        ("unbound structure in 'S T'", lambda: isinstance((1, 2), PyTree[int, "Sjtv T"]), "AnnotationError"),
         ("'?n' outside a PyTree", lambda: isinstance(np_array((2,)), Shaped[N, "?n"]), "AnnotationError"),
         ("unbound name in 'q+1'", lambda: isinstance(np_array((2,)), Shaped[N, "q+1"]), "AnnotationError"),
         ("print_bindings() at top level", lambda: raw_transcript().strip(), ""),
